@@ -352,9 +352,15 @@ inline std::vector<double> alphabet(const std::string &name) {
     fprintf(stderr, "unknown alphabet %s\n", name.c_str()); exit(2);
 }
 
+// "--plus-heavy-k2": every graph of the universe gets one more component, a single edge (two new vertices) that weighs 2^60.
+// It lies on no cycle, so optimum and basis are unchanged, all path and cycle sums stay exactly representable (no path joins
+// the components), but the input now spans 60 binary orders of magnitude: anything scaled by the heaviest edge shows.
+inline bool &plus_heavy_k2() { static bool b = false; return b; }
+constexpr double HEAVY_K2 = 1152921504606846976.0;
 inline bool is_random_menu(const std::vector<double> &A) { return A.size() == 2 && A[0] <= -1000; }
 // number of weightings of an m-edge graph over alphabet A
 inline uint64_t num_weightings(const std::vector<double> &A, int m) {
+    if (plus_heavy_k2() && m >= 1) m -= 1;
     if (is_random_menu(A)) return (uint64_t) A[1];
     if (A.size() == 1 && A[0] == -500) return (uint64_t) std::max(m, 1);
     if (A.size() == 1 && (A[0] == -700 || A[0] == -701)) { uint64_t f = 1; for (int i = 2; i <= m; ++i) f *= (uint64_t) i; return f; }
@@ -364,6 +370,7 @@ inline uint64_t num_weightings(const std::vector<double> &A, int m) {
 }
 // weighting number `idx` (base |A|, edge 0 = least significant digit)
 inline void weighting(const std::vector<double> &A, int m, uint64_t idx, std::vector<double> &w) {
+    if (plus_heavy_k2() && m >= 1) { bool &f = plus_heavy_k2(); f = false; weighting(A, m - 1, idx, w); f = true; w.push_back(HEAVY_K2); return; }
     w.resize(m);
     if (is_random_menu(A)) { int k = (int) (-A[0] - 1000); uint64_t st = 0x9e3779b97f4a7c15ull ^ (idx * 1000003ull + (uint64_t) m * 7919ull); lcg_next(st); for (int i = 0; i < m; ++i) w[i] = 1 + (double) (lcg_next(st) % (uint64_t) k); return; }
     if (A.size() == 1 && A[0] == -600) { for (int i = 1; i < m; ++i) w[i] = 1 + ((idx >> (i - 1)) & 1); if (m > 0) w[0] = 1000; return; }
